@@ -186,12 +186,13 @@ func (cl *Loader) load(file string) (config map[string]interface{}, err error) {
 				return nil, fmt.Errorf("load import error: %v", err)
 			}
 
-			// nested maps have different key types depending on the file format
+			// nested maps have different key types depending on the file format: merge them in the form
+			// the YAML decoder produces (decode turns every key into a string at the end)
 			for k, v := range config {
-				config[k] = stringKeyed(v)
+				config[k] = yamlKeyed(v)
 			}
 			for k, v := range raw {
-				raw[k] = stringKeyed(v)
+				raw[k] = yamlKeyed(v)
 			}
 
 			err = mergo.Merge(&config, raw, mergo.WithOverride, mergo.WithAppendSlice, mergo.WithTypeCheck)
@@ -304,6 +305,36 @@ func (cl *Loader) unmarshalData(data []byte, ext string) (map[string]interface{}
 	}
 
 	return cm, nil
+}
+
+// yamlKeyed converts the string-keyed maps produced by the JSON and TOML decoders into the
+// map[interface{}]interface{} form of the YAML decoder, so that files of different formats, and files
+// that were already merged with their imports, can be merged with each other.
+func yamlKeyed(v interface{}) interface{} {
+	switch x := v.(type) {
+	case map[string]interface{}:
+		m := make(map[interface{}]interface{}, len(x))
+		for k, e := range x {
+			m[k] = yamlKeyed(e)
+		}
+		return m
+	case map[interface{}]interface{}:
+		for k, e := range x {
+			x[k] = yamlKeyed(e)
+		}
+	case []map[string]interface{}:
+		l := make([]interface{}, len(x))
+		for i, e := range x {
+			l[i] = yamlKeyed(e)
+		}
+		return l
+	case []interface{}:
+		for i, e := range x {
+			x[i] = yamlKeyed(e)
+		}
+	}
+
+	return v
 }
 
 // stringKeyed converts the map[interface{}]interface{} values produced by the YAML decoder
